@@ -15,7 +15,7 @@ ID = 'C08'
 LEVEL = 'exploration'
 RUNS = {'quick': 40000, 'thorough': 800000}
 CHUNK = 100
-PROBES = ['lookup_len_boundary', 'lookup_multi_chunk', 'lookup_none_fragment', 'gstr_multi_chunk', 'gstr_none_fragment',
+PROBES = ['timestamp_ties_inside_item', 'lookup_len_boundary', 'lookup_multi_chunk', 'lookup_none_fragment', 'gstr_multi_chunk', 'gstr_none_fragment',
           'tname_two_records', 'interrupt_between_chunks', 'single_between_chunks', 'other_thread_between_chunks',
           'other_thread_half_lookup_between', 'window_more_lookups_than_paths', 'window_fewer_lookups_than_paths',
           'window_exact_lookups', 'two_path_syscall', 'multibyte_across_boundary', 'len_184', 'len_0']
@@ -95,7 +95,7 @@ def generate(rng, index, tier):
     per = kernel.expand_threads(threads, ids)
     shape = rng.pick(['sensitive', 'sensitive', 'uniform', 'rr1', 'serial'])
     sched = draw_sensitive(rng, per, tool.codes()) if shape == 'sensitive' else kernel.draw_schedule(rng, per, shape)
-    scn = {'threads': threads, 'schedule': sched}
+    scn = {'threads': threads, 'schedule': sched, 'tsmode': worlds.draw_tsmode(rng)}
     if rng.chance(0.1):
         scn['table'] = {'remap': {'VFS_LOOKUP': 0x03f00000 | (rng.randrange(1, 1 << 10) << 2)}}
     return scn
@@ -203,6 +203,8 @@ def execute(scn):
             other = [r for r in foreign if r['t'] != stream[lo]['t']]
             if nchunks >= 2 and foreign:
                 nontrivial = True
+            if nchunks >= 2 and len({stream[i]['ts'] for i in range(lo, hi + 1)}) < hi + 1 - lo:
+                bump('probe:timestamp_ties_inside_item')
             if same:
                 bump('probe:interrupt_between_chunks' if any(table.get(r['id']) == 'INTERRUPT' for r in same) else 'probe:single_between_chunks')
             if other:
